@@ -2,7 +2,7 @@
 From Coq Require Import List NArith Arith Bool.
 Import ListNotations.
 From Chiri Require Import Base.Bytes Base.Res Model.Finders Model.Format Spec.Ranges Spec.Lines
-     Proofs.FormatterProofs Proofs.BlockProofs.
+     Proofs.FormatterProofs Proofs.BlockProofs Proofs.UnwrapDoc.
 
 (** Exact formula for the block formatter between the two seams of an unwrapped element:
     ofs = the indentation of the head seam's line (the column of the opening tag) when only blanks
@@ -80,6 +80,36 @@ Print Assumptions C12_block_ranges_safe.
     C13_first_line_block_fixed, and C12_offset_on_the_first_line above (the offset is the tag's column
     there too; before the repair it was 0 because the start of the file was not accepted as a line
     start). *)
+
+
+(** Document level, ONE unwrap-block (Proofs/UnwrapDoc.v): in the output of
+    C11_single_unwrap_block_document (Properties/C11.v) the inner lines are [dedent ofs inner] with
+    ofs = the opening tag's indentation: with len = (leading blanks of the first inner line) - ofs,
+    every line with ib leading blanks keeps its first min ofs ib blanks and loses the next
+    min len (ib - ofs) of them; everything behind the leading blanks is kept byte for byte. *)
+Theorem C12_dedent_is_line_wise :
+  forall ofs inner,
+    lines (dedent ofs inner) = map (dedent_line ofs (leading_blanks inner - ofs)) (lines inner).
+Proof. exact dedent_lines_map. Qed.
+Print Assumptions C12_dedent_is_line_wise.
+
+Theorem C12_first_inner_line_lands_on_the_tag_column :
+  forall ofs inner, leading_blanks (dedent ofs inner) = Nat.min ofs (leading_blanks inner).
+Proof. exact dedent_first_line. Qed.
+Print Assumptions C12_first_inner_line_lands_on_the_tag_column.
+
+(** Everything behind the leading blanks of a line is kept byte for byte; exactly
+    min len (ib - ofs) blanks go; a line at or left of the tag's column is untouched. *)
+Theorem C12_line_keeps_its_text :
+  forall ofs len l,
+    skipn (leading_blanks (dedent_line ofs len l)) (dedent_line ofs len l) = skipn (leading_blanks l) l.
+Proof. exact dedent_line_suffix. Qed.
+Print Assumptions C12_line_keeps_its_text.
+
+Theorem C12_line_at_or_left_of_the_tag_column_untouched :
+  forall ofs len l, leading_blanks l <= ofs -> dedent_line ofs len l = l.
+Proof. exact dedent_line_shallow. Qed.
+Print Assumptions C12_line_at_or_left_of_the_tag_column_untouched.
 
 (** Non-vacuity of the first-line case: "  <\n    a\n  >" with the seams 2 and 13 (the tag bytes
     stand for themselves): offset 2, the body line loses 2 of its 4 blanks. *)
